@@ -19,7 +19,9 @@ recursion through `List Tmpl`), so closed instances reduce by `decide`.
 
 ## Part 2 — the macro-time (inert) path
 * `svgTags`, `mathTags`, `macroVoid`, `macroNoEscape` — the literal lists of `is_svg_element`,
-             `is_math_ml_element`, `is_self_closing` and the `script|style|textarea` test (two sites) in mod.rs.
+             `is_math_ml_element`, `is_self_closing` and the `script|style|textarea|noscript` test (two sites) in
+             mod.rs.  The model is of /repo AFTER fix-c18-1 (noscript in that list), fix-c18-3 (class literal
+             trimmed) and fix-c18-4 (empty literal = one space); the previous printer is kept as `…Old`.
 * `attrInert`, `inertNode`, `isInert` — `is_inert_element` (the queue walk is a conjunction over all
              nodes; order is irrelevant).
 * `inertAttr`, `inertNodeHtml`, `inertHtml` — `inert_element_to_tokens` with `global_class = None`
@@ -139,8 +141,12 @@ def macroVoid : List Str :=
    ['h','r'], ['i','m','g'], ['i','n','p','u','t'], ['l','i','n','k'], ['m','e','t','a'],
    ['p','a','r','a','m'], ['s','o','u','r','c','e'], ['t','r','a','c','k'], ['w','b','r']]
 
-/-- `el_name != "script" && el_name != "style" && el_name != "textarea"` -/
-def macroNoEscape : List Str := [tScript, tStyle, tTextarea]
+/-- `el_name != "script" && el_name != "style" && el_name != "textarea" && el_name != "noscript"`
+(after fix-c18-1) -/
+def macroNoEscape : List Str := [tScript, tStyle, tTextarea, tNoscript]
+
+/-- before fix-c18-1 -/
+def macroNoEscapeOld : List Str := [tScript, tStyle, tTextarea]
 
 def sParam : Str := ['p','a','r','a','m']
 def sSection : Str := ['s','e','c','t','i','o','n']
@@ -150,6 +156,7 @@ def isSvgTag (t : Str) : Bool := svgTags.contains t
 def isMathTag (t : Str) : Bool := mathTags.contains t
 def macroIsVoid (t : Str) : Bool := macroVoid.contains t
 def macroEscapes (t : Str) : Bool := !macroNoEscape.contains t
+def macroEscapesOld (t : Str) : Bool := !macroNoEscapeOld.contains t
 
 /-- the per-attribute test of `is_inert_element`: static key, and no value or a string literal
 (keys `style:…` never count as static values; `class:name={bool}` has a non-literal value) -/
@@ -190,7 +197,7 @@ def inertAttr : TAttr → Str
   | .plain true n _ => ' ' :: n
   | .flag n => ' ' :: n
   | .boolDyn n _ => ' ' :: n
-  | .cls false v => sClassEq ++ escapeAttr v ++ ['"']
+  | .cls false v => sClassEq ++ escapeAttr (trim v) ++ ['"']
   | .cls true _ => []
   | .style false v => ' ' :: sStyle ++ '=' :: '"' :: escapeAttr v ++ ['"']
   | .style true _ => ' ' :: sStyle
@@ -206,7 +213,7 @@ def inertAttrs : List TAttr → Str
 mutual
 /-- `Item::Node(node, escape)` … `Item::ClosingTag` -/
 def inertNodeHtml (escape : Bool) : Tmpl → Str
-  | .text s => if escape then escapeText s else s
+  | .text s => (if s = [] ∧ escape = true then [' '] else []) ++ (if escape then escapeText s else s)
   | .block _ => []
   | .elem tag attrs kids =>
     '<' :: tag ++ inertAttrs attrs ++ '>' ::
@@ -223,6 +230,36 @@ end
 /-- the string handed to `InertElement::new` (the root is an element, so the `escape_text` argument
 of `inert_element_to_tokens` is not consulted for it) -/
 def inertHtml (t : Tmpl) : Str := inertNodeHtml true t
+
+/-! ### the printer before fix-c18-1, 3, 4 (kept for the regression witnesses) -/
+
+/-- before fix-c18-3: the class literal untrimmed -/
+def inertAttrOld : TAttr → Str
+  | .cls false v => sClassEq ++ escapeAttr v ++ ['"']
+  | a => inertAttr a
+
+def inertAttrsOld : List TAttr → Str
+  | [] => []
+  | a :: r => inertAttrOld a ++ inertAttrsOld r
+
+mutual
+/-- before fix-c18-4 (nothing for an empty literal) and fix-c18-1 (`macroEscapesOld`) -/
+def inertNodeHtmlOld (escape : Bool) : Tmpl → Str
+  | .text s => if escape then escapeText s else s
+  | .block _ => []
+  | .elem tag attrs kids =>
+    '<' :: tag ++ inertAttrsOld attrs ++ '>' ::
+      (if macroIsVoid tag then []
+       else inertKidsHtmlOld (macroEscapesOld tag) kids ++ '<' :: '/' :: tag ++ ['>'])
+  | .frag _ => []
+  | .comp kids =>
+    '<' :: sWrap ++ '>' :: (inertKidsHtmlOld (macroEscapesOld sWrap) kids ++ '<' :: '/' :: sWrap ++ ['>'])
+def inertKidsHtmlOld (escape : Bool) : List Tmpl → Str
+  | [] => []
+  | t :: ts => inertNodeHtmlOld escape t ++ inertKidsHtmlOld escape ts
+end
+
+def inertHtmlOld (t : Tmpl) : Str := inertNodeHtmlOld true t
 
 /-! ## Part 3 — the builder path -/
 
@@ -304,6 +341,23 @@ end
 /-- `view!{ … }.to_html()` for the root nodes `ts` -/
 def macroHtml (ts : List Tmpl) : Str := expKidsHtml true .firstChild (expandKids true ts)
 
+mutual
+/-- the expansion with the old compile-time printer -/
+def expandOld (top : Bool) : Tmpl → List Exp
+  | .text s => [.text s]
+  | .block s => [.text s]
+  | .elem tag attrs kids =>
+    if !top && isInert (.elem tag attrs kids) then [.inert (inertHtmlOld (.elem tag attrs kids))]
+    else [.elem tag (builderAttrs attrs) (if macroIsVoid tag then [] else expandKidsOld false kids)]
+  | .frag kids => expandKidsOld true kids
+  | .comp kids => [.elem sSection [] (expandKidsOld true kids)]
+def expandKidsOld (top : Bool) : List Tmpl → List Exp
+  | [] => []
+  | t :: ts => expandOld top t ++ expandKidsOld top ts
+end
+
+def macroHtmlOld (ts : List Tmpl) : Str := expKidsHtml true .firstChild (expandKidsOld true ts)
+
 /-! ## Part 4 — denotation and normalisation -/
 
 def flush (cur : Str) : List Str := if cur = [] then [] else [cur]
@@ -374,13 +428,14 @@ def plainDen : List TAttr → List (Str × Str)
   | .boolDyn n true :: r => (n, []) :: plainDen r
   | _ :: r => plainDen r
 
-/-- class tokens: the `class` value, then `class:` toggles that are on, then tuple toggles that are on -/
-def classDen : List TAttr → List Str
+/-- class source: the `class` value, then the names of the `class:` toggles and tuple toggles that are on,
+each preceded by a space -/
+def classSrc : List TAttr → Str
   | [] => []
-  | .cls _ v :: r => classTokens v ++ classDen r
-  | .clsToggle n true :: r => classTokens n ++ classDen r
-  | .clsTuple n true :: r => classTokens n ++ classDen r
-  | _ :: r => classDen r
+  | .cls _ v :: r => ' ' :: v ++ classSrc r
+  | .clsToggle n on :: r => ' ' :: (if on then n else []) ++ classSrc r
+  | .clsTuple n on :: r => ' ' :: (if on then n else []) ++ classSrc r
+  | _ :: r => classSrc r
 
 /-- style source: the `style` value, then `name:value` of every `style:` form, each closed by `;` -/
 def styleSrc : List TAttr → Str
@@ -389,25 +444,31 @@ def styleSrc : List TAttr → Str
   | .styleKV _ n v :: r => n ++ ':' :: v ++ ';' :: styleSrc r
   | _ :: r => styleSrc r
 
+/-- the class list is what is left of the class source after trimming (leptos trims the class value with
+`str::trim` on both paths), the style value its declarations -/
 def denAttrs (attrs : List TAttr) : List (Str × Str) :=
-  plainDen attrs ++ optAttr sClass (joinSep ' ' (classDen (sortAttrs attrs))) ++
+  plainDen attrs ++ optAttr sClass (normClass (trim (classSrc (sortAttrs attrs)))) ++
     optAttr sStyle (normStyle (styleSrc (sortAttrs attrs)))
 
+/-- a string child: in an element whose children are escaped the empty string stands for one space (leptos
+keeps a text node for it on both paths), elsewhere (`script style textarea noscript`) for nothing -/
+def textDen (esc : Bool) (s : Str) : Str := if esc && s = [] then [' '] else s
+
 mutual
-def denK : Tmpl → List Tree → List Tree
-  | .text s, acc => consText s acc
-  | .block s, acc => consText s acc
+def denK (esc : Bool) : Tmpl → List Tree → List Tree
+  | .text s, acc => consText (textDen esc s) acc
+  | .block s, acc => consText (textDen esc s) acc
   | .elem tag attrs kids, acc =>
-    .elem tag (denAttrs attrs) (if isVoid tag then [] else denKs kids []) :: acc
-  | .frag kids, acc => denKs kids acc
-  | .comp kids, acc => .elem sSection [] (denKs kids []) :: acc
-def denKs : List Tmpl → List Tree → List Tree
+    .elem tag (denAttrs attrs) (if isVoid tag then [] else denKs (escapeChildren tag) kids []) :: acc
+  | .frag kids, acc => denKs esc kids acc
+  | .comp kids, acc => .elem sSection [] (denKs true kids []) :: acc
+def denKs (esc : Bool) : List Tmpl → List Tree → List Tree
   | [], acc => acc
-  | t :: ts, acc => denK t (denKs ts acc)
+  | t :: ts, acc => denK esc t (denKs esc ts acc)
 end
 
 /-- the document the root nodes `ts` stand for -/
-def denote (ts : List Tmpl) : List Tree := denKs ts []
+def denote (ts : List Tmpl) : List Tree := denKs true ts []
 
 def dynAttr : TAttr → TAttr
   | .plain _ n v => .plain true n v
@@ -578,13 +639,17 @@ def Seen.emptyText : Seen → Bool
   | .btext true [] => true
   | _ => false
 
-/-- the class of a failing input -/
-def findingClass (ts : List Tmpl) : Option Nat :=
+/-- the class of a failing input before fix-c18-1, 3, 4 -/
+def findingClassOld (ts : List Tmpl) : Option Nat :=
   let l := seenKids true true ts
   if l.any Seen.noscriptInert then some 0
   else if l.any Seen.rawMarker then some 1
   else if l.any Seen.classWs then some 2
   else if l.any Seen.emptyText then some 3
   else none
+
+/-- the class of a failing input: only `rawtext-marker` is left -/
+def findingClass (ts : List Tmpl) : Option Nat :=
+  if (seenKids true true ts).any Seen.rawMarker then some 1 else none
 
 end Leptos.Macro
